@@ -67,6 +67,90 @@ func runC09(p *Prog, r *Report) {
 	if want("C09.9") {
 		ruleParkedWritersAnswered(p, r, "C09.9")
 	}
+	if want("C09.10") {
+		ruleWriteBackpressure(p, r, "C09.10")
+	}
+}
+
+// ruleWriteBackpressure: DB.flush loops (`for flush() {}`) until the effective buffer has room.
+// Every "try again" answer of the closure is preceded by something that lets the situation
+// change — the one-off 1 ms slowdown sleep, or a blocking wait for a table compaction that
+// returned without error — so the writer neither spins nor waits on a compaction error forever;
+// a closed DB and a failed wait end the loop.
+func ruleWriteBackpressure(p *Prog, r *Report, rule string) {
+	r.Begin(rule, "E-ORD", "write backpressure (DB.flush): the retry closure answers 'again' only after the one-off slowdown sleep or after compTriggerWait(tcompCmdC) returned nil; it stops on a closed DB (no effective buffer) and on a failed wait; the slowdown sleep happens at most once per write (guarded by the delayed flag it sets); the pause flag set around the wait is cleared on every path", 5)
+	defer r.End()
+	fn := resolveFn(p, r, "leveldb", "(*DB).flush")
+	if fn == nil {
+		return
+	}
+	var cl *ssa.Function
+	for _, a := range fn.AnonFuncs {
+		if countInstr(a, evCall("(*leveldb.DB).getEffectiveMem")) > 0 {
+			cl = a
+		}
+	}
+	if cl == nil {
+		r.Fail(fnName(fn), "retry-closure:unresolved-anchor", "flush has a retry closure", "not found", p.Pos(fn.Pos()), nil)
+		return
+	}
+	r.Fn(fnName(cl))
+	sleep := evCall("time.Sleep")
+	wait := andPred(evCall("(*leveldb.DB).compTriggerWait"), predArg(1, mChanField(tDB, "tcompCmdC")))
+	again := func(in ssa.Instruction) bool {
+		ret, ok := in.(*ssa.Return)
+		if !ok || len(ret.Results) != 1 {
+			return false
+		}
+		b, isC := constBool(retValue(ret, ret.Results[0]))
+		return !isC || b
+	}
+	requireSites(p, r, cl, "slowdown-sleep", "time.Sleep (slowdown)", sleep, 1)
+	requireSites(p, r, cl, "pause-wait", "compTriggerWait(tcompCmdC)", wait, 1)
+	r.Site(1)
+	if w := findPath(entryPoint(cl), nil, orPred(sleep, wait), again); w != nil {
+		r.Fail(fnName(cl), "retry-without-progress", "'again' is answered only after sleeping or waiting for a compaction", "a path answers 'again' without having slept or waited: the writer spins", p.posOfLast(w, again), p.renderPath(w))
+	} else {
+		r.OK(fnName(cl), "retry-only-after-progress", "'again' is answered only after sleeping or waiting for a compaction")
+	}
+	// a failed wait ends the loop
+	ordNotOnError(p, r, cl, "failed-wait-stops", mCellNamed("err"), "compTriggerWait", wait, func(in ssa.Instruction) bool {
+		ret, ok := in.(*ssa.Return)
+		if !ok || len(ret.Results) != 1 {
+			return false
+		}
+		b, isC := constBool(retValue(ret, ret.Results[0]))
+		return isC && b
+	}, "answering 'again'")
+	// the sleep is one-off
+	delayed := boolAtom("delayed", mCellNamed("delayed"))
+	checkGuard(p, r, GuardSpec{Rule: "slowdown-once", Fn: cl, Target: sleep, TargetDesc: "the slowdown sleep", Atoms: []Atom{delayed}, G: func(a []bool) bool { return !a[0] }, GDesc: "¬delayed (and it sets delayed)", MinTargets: 1})
+	ordPrecede(p, r, cl, "sleep-sets-delayed", nil, evStoreCell("delayed"), "delayed = true", sleep, "time.Sleep")
+	// pause flag cleared after the wait on every path
+	setPaused := func(val int64) InstrPred {
+		return func(in ssa.Instruction) bool {
+			return isCallTo(in, "sync/atomic.StoreInt32") && argIs(in, 0, func(v ssa.Value) bool { return isFieldAddr(v, tDB, "inWritePaused") }) && argIs(in, 1, mConstInt(val))
+		}
+	}
+	// (on EVERY path, error exits included: ordFollow would prune those)
+	if requireSites(p, r, cl, "pause-flag-set", "inWritePaused = 1", setPaused(1), 1) {
+		r.Site(1)
+		if w := findPath(after(cl, setPaused(1)), nil, setPaused(0), isReturn); w != nil {
+			r.Fail(fnName(cl), "pause-flag-stuck", "the write-paused flag is cleared on every path after it was set", "a path returns with inWritePaused still 1", p.posOfLast(w, isReturn), p.renderPath(w))
+		} else {
+			r.OK(fnName(cl), "pause-flag-cleared", "the write-paused flag is cleared on every path after it was set")
+		}
+	}
+	// closed DB: no effective buffer → stop with ErrClosed
+	noMem := nilAtom("mdb==nil", mCall("(*leveldb.DB).getEffectiveMem"))
+	checkGuardExact(p, r, GuardSpec{Rule: "closed-db-stops", Fn: cl, Target: func(in ssa.Instruction) bool {
+		ret, ok := in.(*ssa.Return)
+		if !ok || len(ret.Results) != 1 {
+			return false
+		}
+		b, isC := constBool(retValue(ret, ret.Results[0]))
+		return isC && !b
+	}, TargetDesc: "the loop ends", Atoms: []Atom{noMem}, G: func(a []bool) bool { return a[0] }, GDesc: "there is no effective buffer (DB closed)"}, orPred(sleep, wait, evCall("(*leveldb.DB).rotateMem")), "sleeping / waiting / rotating")
 }
 
 // ruleParkedWritersAnswered: a writer that was received by a leader but did not fit its group
